@@ -220,6 +220,71 @@ def group_aliases(tree: ast.Module) -> ast.Module:
     return tree
 
 
+def format_calls(tree: ast.Module) -> ast.Module:
+    """`"… {name:15} {p.mass:<10.8g} …".format(name=E, p=P)`  ==>  f"… {E:15} {P.mass:<10.8g} …"
+    (a constant format string with named / numbered / automatic fields, attribute and index paths, conversions and literal
+    format specs).  Generated-text rules then see one form only.  Calls the transformation cannot express exactly (a starred
+    argument, a field without a matching argument, nested replacement fields in a spec) are left as they are."""
+    import string
+
+    class T(ast.NodeTransformer):
+        def visit_Call(self, n):
+            self.generic_visit(n)
+            f = n.func
+            if not (isinstance(f, ast.Attribute) and f.attr == "format" and isinstance(f.value, ast.Constant) and isinstance(f.value.value, str)):
+                return n
+            if any(isinstance(a, ast.Starred) for a in n.args) or any(k.arg is None for k in n.keywords):
+                return n
+            kw = {k.arg: k.value for k in n.keywords}
+            try:
+                parts = list(string.Formatter().parse(f.value.value))
+            except ValueError:
+                return n
+            values = []
+            auto = 0
+            for lit, field, spec, conv in parts:
+                if lit:
+                    values.append(ast.Constant(value=lit))
+                if field is None:
+                    continue
+                if spec and "{" in spec:
+                    return n
+                m = re.match(r"^([A-Za-z_][A-Za-z_0-9]*|\d*)(.*)$", field)
+                base, rest = m.group(1), m.group(2)
+                if base == "":
+                    if auto >= len(n.args):
+                        return n
+                    be = n.args[auto]
+                    auto += 1
+                elif base.isdigit():
+                    if int(base) >= len(n.args):
+                        return n
+                    be = n.args[int(base)]
+                elif base in kw:
+                    be = kw[base]
+                else:
+                    return n
+                expr = copy.deepcopy(be)
+                # attribute / index path: .a  [0]  [key]
+                for tok in re.findall(r"\.[A-Za-z_][A-Za-z_0-9]*|\[[^\]]*\]", rest):
+                    if tok.startswith("."):
+                        expr = ast.Attribute(value=expr, attr=tok[1:], ctx=ast.Load())
+                    else:
+                        key = tok[1:-1]
+                        expr = ast.Subscript(value=expr, slice=ast.Constant(value=int(key) if key.isdigit() else key), ctx=ast.Load())
+                if "".join(re.findall(r"\.[A-Za-z_][A-Za-z_0-9]*|\[[^\]]*\]", rest)) != rest:
+                    return n
+                fv = ast.FormattedValue(value=expr, conversion={None: -1, "s": 115, "r": 114, "a": 97}[conv],
+                                        format_spec=ast.JoinedStr(values=[ast.Constant(value=spec)]) if spec else None)
+                values.append(fv)
+            if not any(isinstance(v, ast.FormattedValue) for v in values):
+                return n
+            return ast.copy_location(ast.JoinedStr(values=values), n)
+    t2 = T().visit(copy.deepcopy(tree))
+    ast.fix_missing_locations(t2)
+    return t2
+
+
 def builder_loops(tree: ast.Module) -> ast.Module:
     """`L = []` immediately followed by `for x in IT: [if C:] L.append(E)` (or `L.extend(E)`, or nested loops of that shape)
     ==>  `L = [E for x in IT if C]`  (`[y for x in IT if C for y in E]` for extend).
@@ -244,6 +309,10 @@ def builder_loops(tree: ast.Module) -> ast.Module:
             if st.value.func.attr == "extend":
                 v = f"_x{len(gens)}"
                 return ast.Name(id=v, ctx=ast.Load()), gens + [ast.comprehension(target=ast.Name(id=v, ctx=ast.Store()), iter=st.value.args[0], ifs=[], is_async=0)]
+        # D[k] = v  (dictionary builder)
+        if isinstance(st, ast.Assign) and len(st.targets) == 1 and isinstance(st.targets[0], ast.Subscript) and isinstance(st.targets[0].value, ast.Name) \
+                and st.targets[0].value.id == name and gens and not uses(st.value, name) and not uses(st.targets[0].slice, name):
+            return ("dict", st.targets[0].slice, st.value), gens
         return None
 
     def block(stmts):
@@ -260,16 +329,23 @@ def builder_loops(tree: ast.Module) -> ast.Module:
                 for h in st.handlers:
                     h.body = block(h.body)
             tgt = None
-            if isinstance(st, ast.Assign) and len(st.targets) == 1 and isinstance(st.targets[0], ast.Name) and isinstance(st.value, ast.List) and not st.value.elts:
-                tgt = st.targets[0].id
-            elif isinstance(st, ast.AnnAssign) and isinstance(st.target, ast.Name) and isinstance(st.value, ast.List) and not st.value.elts:
-                tgt = st.target.id
+            is_d = False
+
+            def empty_l(v):
+                return isinstance(v, ast.List) and not v.elts
+
+            def empty_d(v):
+                return isinstance(v, ast.Dict) and not v.keys
+            if isinstance(st, ast.Assign) and len(st.targets) == 1 and isinstance(st.targets[0], ast.Name) and (empty_l(st.value) or empty_d(st.value)):
+                tgt, is_d = st.targets[0].id, empty_d(st.value)
+            elif isinstance(st, ast.AnnAssign) and isinstance(st.target, ast.Name) and st.value is not None and (empty_l(st.value) or empty_d(st.value)):
+                tgt, is_d = st.target.id, empty_d(st.value)
             if tgt is not None and i + 1 < len(stmts) and isinstance(stmts[i + 1], ast.For):
                 import copy as _c
                 sh = shape(_c.deepcopy(stmts[i + 1]), tgt, [])
-                if sh is not None:
+                if sh is not None and (isinstance(sh[0], tuple) == is_d):
                     elt, gens = sh
-                    comp = ast.ListComp(elt=elt, generators=gens)
+                    comp = ast.DictComp(key=elt[1], value=elt[2], generators=gens) if is_d else ast.ListComp(elt=elt, generators=gens)
                     new = ast.copy_location(ast.Assign(targets=[ast.Name(id=tgt, ctx=ast.Store())], value=ast.copy_location(comp, stmts[i + 1]), lineno=st.lineno), st)
                     out.append(new)
                     changed = True
@@ -385,6 +461,59 @@ def inline_helpers(tree: ast.Module) -> ast.Module:
                     defs[m.name] = (n.name, m)
     counter = [0]
 
+    # A multi-statement helper called once per element of a list comprehension cannot be inlined inside the comprehension:
+    # the comprehension statement is first unfolded into its loop form (`L = []` / `for …: L.append(E)`), where it can.
+    def _calls_helper(e):
+        # (helpers built around try/except are left as functions: the type engine reads the token-or-tree idiom
+        #  `try: x.children… except AttributeError: x.value` per argument alternative, which needs the function boundary)
+        def plain(fn_):
+            return not any(isinstance(y, ast.Try) for y in ast.walk(fn_))
+        for x in ast.walk(e):
+            if isinstance(x, ast.Call):
+                f = x.func
+                if isinstance(f, ast.Name) and f.id in defs and defs[f.id][0] is None and plain(defs[f.id][1]):
+                    return True
+                if isinstance(f, ast.Attribute) and f.attr in defs and defs[f.attr][0] is not None and isinstance(f.value, ast.Name) \
+                        and (f.value.id in ("self", "cls") or f.value.id == defs[f.attr][0]) and plain(defs[f.attr][1]):
+                    return True
+        return False
+
+    def unfold_block(stmts):
+        out = []
+        for st in stmts:
+            for f_ in ("body", "orelse", "finalbody"):
+                b = getattr(st, f_, None)
+                if isinstance(b, list) and b and isinstance(b[0], ast.stmt) and not isinstance(st, (ast.FunctionDef, ast.ClassDef)):
+                    setattr(st, f_, unfold_block(b))
+            if isinstance(st, ast.Try):
+                for h in st.handlers:
+                    h.body = unfold_block(h.body)
+            comp = None
+            if isinstance(st, ast.Return) and isinstance(st.value, ast.ListComp):
+                comp, tname = st.value, None
+            elif isinstance(st, ast.Assign) and len(st.targets) == 1 and isinstance(st.targets[0], ast.Name) and isinstance(st.value, ast.ListComp):
+                comp, tname = st.value, st.targets[0].id
+            if comp is not None and _calls_helper(comp.elt) and not any(_calls_helper(g.iter) or any(_calls_helper(i) for i in g.ifs) for g in comp.generators):
+                counter[0] += 1
+                lname = tname or f"items{counter[0]}"
+                body = [ast.Expr(value=ast.Call(func=ast.Attribute(value=ast.Name(id=lname, ctx=ast.Load()), attr="append", ctx=ast.Load()), args=[comp.elt], keywords=[]))]
+                for g in reversed(comp.generators):
+                    for cond in reversed(g.ifs):
+                        body = [ast.If(test=cond, body=body, orelse=[])]
+                    body = [ast.For(target=g.target, iter=g.iter, body=body, orelse=[])]
+                init = ast.Assign(targets=[ast.Name(id=lname, ctx=ast.Store())], value=ast.List(elts=[], ctx=ast.Load()))
+                new = [init] + body + ([ast.Return(value=ast.Name(id=lname, ctx=ast.Load()))] if tname is None else [])
+                for n_ in new:
+                    ast.copy_location(n_, st)
+                    ast.fix_missing_locations(n_)
+                out += new
+                continue
+            out.append(st)
+        return out
+    for n_ in ast.walk(tree):
+        if isinstance(n_, ast.FunctionDef) and not any(n_ is d[1] for d in defs.values()):
+            n_.body = unfold_block(n_.body)
+
     def call_of(e):
         """(name, callee, receiver-kind) when e is a call of an inlinable helper"""
         if not isinstance(e, ast.Call):
@@ -473,6 +602,19 @@ def inline_helpers(tree: ast.Module) -> ast.Module:
                 if isinstance(tg, ast.Name) and (not isinstance(st, ast.Assign) or len(st.targets) == 1):
                     new = expand_call(st.value, nm, lambda r, tg=tg, st=st: [ast.copy_location(ast.Assign(targets=[ast.Name(id=tg.id, ctx=ast.Store())], value=r.value, lineno=r.lineno), r)],
                                       set())
+                    if new is not None:
+                        out += new
+                        done = True
+            if not done and isinstance(st, ast.Assign) and len(st.targets) == 1 and isinstance(st.targets[0], ast.Tuple) and (nm := call_of(st.value)) \
+                    and defs[nm][1] is not host:
+                # a, b = helper(...) where the helper ends in `return x, y` of already computed locals: a = x ; b = y
+                rets_ = [r_ for r_ in ast.walk(defs[nm][1]) if isinstance(r_, ast.Return)]
+                tg = st.targets[0]
+                if len(rets_) == 1 and isinstance(rets_[0].value, ast.Tuple) and len(rets_[0].value.elts) == len(tg.elts) \
+                        and all(isinstance(e_, ast.Name) for e_ in rets_[0].value.elts) and not any(isinstance(e_, ast.Starred) for e_ in tg.elts):
+                    def mk(r, tg=tg):
+                        return [ast.copy_location(ast.Assign(targets=[t_], value=v_, lineno=r.lineno), r) for t_, v_ in zip(tg.elts, r.value.elts)]
+                    new = expand_call(st.value, nm, mk, set())
                     if new is not None:
                         out += new
                         done = True
